@@ -349,6 +349,77 @@ def rule_keys(ctx, rep, rid="R-C08-keys", files=None, floor=15, what="every name
                     r.finding(inst, loc_str(b.f, c.loc), "static name set queried with a spelling that is not lower-cased")
 
 
+RAW_EXEMPT = {
+    "(*@KEY@:DESCRIPTION*)": "OSCAT marker comment: a fixed byte sequence by that library's convention, not an IEC keyword",
+    "(*@KEY@:END_DESCRIPTION*)": "OSCAT marker comment: a fixed byte sequence by that library's convention, not an IEC keyword",
+}
+
+
+def rule_rawtext(ctx, rep, rid="R-C08-rawtext"):
+    """Keywords are case-insensitive because the *lexer* says so.  Code that looks for a keyword in text by itself - `source.contains("END_IF")`,
+    `text.starts_with("VAR")` - bypasses the lexer and is case-sensitive (and blind to comments and strings).  Every search of a constant
+    with letters in the parser crate's hand-written, non-grammar code is listed."""
+    r = rep.rule(rid, "no hand-written parser code searches text for a lettered constant (a case-sensitive keyword test that bypasses the lexer); "
+                      "the OSCAT marker comments are the listed exemption", floor=2, floor_what="text searches with constant patterns in the parser crate")
+    SEARCH = {"contains", "find", "rfind", "starts_with", "ends_with", "matches", "rmatches", "match_indices", "split", "rsplit", "split_once", "rsplit_once",
+              "strip_prefix", "strip_suffix", "eq", "ne", "trim_start_matches", "trim_end_matches", "replace", "replacen", "split_terminator", "splitn"}
+    n = 0
+    for b in sorted(ctx.prog.bodies.values(), key=lambda x: x.id):
+        fn = norm(b.id)
+        if b.f["crate"] != "ironplc_parser" or "::plc_parser::" in fn or "::test" in fn or " as logos::Logos" in fn or b.f.get("exp"):
+            continue
+        m0 = None
+        for c in sorted(b.calls(), key=lambda c: (c.loc[0], c.loc[1])):
+            nm = (c.callee or c.u or "").split("::")[-1]
+            if nm not in SEARCH or not ("str" in (c.callee or "") or "String" in (c.callee or "") or "PartialEq" in (c.u or "")):
+                continue
+            from vlib.mir import loc_macro
+            mm = loc_macro(c.loc)
+            if mm and (str(mm[0]).startswith("Derive:") or mm[0] in ("Bang:parser",)):
+                continue
+            for a in c.args[1:2]:          # the pattern (not the replacement text of replace())
+                k = b.const_str(a)
+                if k is None:
+                    continue
+                n += 1
+                inst = "%s|%s(%r)" % (fn.replace("ironplc_parser::", ""), nm, k[:40])
+                where = loc_str(b.f, c.loc)
+                if not re.search(r"[A-Za-z]", k):
+                    r.ok(inst, where, "no letters")
+                elif k in RAW_EXEMPT:
+                    r.justified(inst, RAW_EXEMPT[k], where)
+                else:
+                    r.finding(inst + "|lettered-constant", where, "text is searched for the constant %r with a byte-wise comparison: the same word in another letter case "
+                              "(and the word inside a comment or string) is treated differently from what the lexer would say" % k)
+    r.note("%d constant patterns" % n)
+
+
+def rule_prestep(ctx, rep, rid="R-C08-prestep"):
+    """Whatever rewrites the raw source before the lexer runs cannot tell code from the contents of strings and comments.  The steps of
+    `preprocess` are an inventory: today one (the OSCAT description blanking, decided by R-C05-blank); any other step is reported."""
+    r = rep.rule(rid, "preprocess() applies exactly the listed text rewriting steps before lexing (today: remove_oscat_comment); a new step is reported for triage",
+                 floor=1, floor_what="preprocessing steps")
+    KNOWN_STEPS = {"ironplc_parser::preprocessor::remove_oscat_comment": "blanks one OSCAT description region byte for byte (R-C05-blank)"}
+    pb = ctx.prog.get("ironplc_parser::preprocessor::preprocess")
+    if not pb:
+        rep.error(rid, "preprocessor::preprocess not found")
+        return
+    b = pb[0]
+    for c in sorted(b.calls(), key=lambda c: (c.loc[0], c.loc[1])):
+        tg = [t for t in (ctx.prog.get(c.callee) if c.callee else []) if t.f["crate"] == "ironplc_parser"]
+        for t in tg:
+            inst = "preprocess|step %s" % norm(t.id).split("::")[-1]
+            if norm(t.id) in KNOWN_STEPS:
+                r.ok(inst, loc_str(b.f, c.loc), KNOWN_STEPS[norm(t.id)])
+            else:
+                r.finding(inst + "|unlisted", loc_str(b.f, c.loc), "a new step rewrites the raw source text before lexing: it acts on the contents of string literals and comments as "
+                          "well as on code (characters of a literal can change, a brace in a comment can pair with one in a later comment)")
+    edits = sorted({(c.callee or "").split("::")[-1] for c in b.calls() if (c.callee or "").split("::")[-1] in
+                    ("replace", "replacen", "retain", "to_uppercase", "to_lowercase", "trim", "lines", "split", "chars")})
+    if edits:
+        r.finding("preprocess|inline-rewrite:" + ",".join(edits), "%s:%d" % (b.f["file"], b.f["line"]), "preprocess itself rewrites the text (%s)" % ", ".join(edits))
+
+
 def rule_pipe(ctx, rep):
     r = rep.rule("R-C08-pipe", "tokenize_program = preprocess -> tokenize -> insert_keyword_statement_terminators (in that order, each fed by the "
                                "previous result) and parse_program parses exactly that token vector", floor=4, floor_what="pipeline links")
@@ -430,6 +501,8 @@ def run(ctx, rep):
     rule_id(ctx, rep)
     rule_keys(ctx, rep)
     rule_pipe(ctx, rep)
+    rule_rawtext(ctx, rep)
+    rule_prestep(ctx, rep)
     from rules import c08_trivia, c08_endif
     c08_trivia.run(ctx, rep)
     c08_trivia.run_glue(ctx, rep)
